@@ -109,15 +109,22 @@ CLAIMS['C20'] = ('proof', 'Lean 4 theorems on a transcription of both process-gr
     'standard_layouts_buildable. Exhaustive box max1,max2<=30,size<=64 (thorough 60/60/128) + random to 1e6 vs the real functions (exact) and a brute-force divisor oracle; real setupCylindricalGrid builds on <= 8 ranks.',
     NOTE_COMMON + ' Float vs exact ratio comparisons can differ only on exact ties (proved: nondivisor_strictly_worse).', 'DESIGN.md 4/C20')
 
-CLAIMS['C14'] = ('other', 'partial proof in Lean 4 (slices, quadrature weak form of every matrix entry, linearity, buffer history-freedom, refusal logic) + exact-rational residual correspondence under the sparse-solver contract + manufactured-solution oracle',
-    '16 theorems: slices_consistent, assembled_is_quadrature_weak_form, quadSum_is_gauss_sum, mass_symmetric, solve_linear_in_rho, coeffs_buffer_history_free, modes_independent, dirichlet_zero_at_boundary, '
-    'neumann_refusal_iff, funcIsNull_iff, accepted_has_no_pure_neumann_mode, function_rhs_agrees_when_rhoFactor_one (+ negative witness of the defect repaired by the fix: commit for function right-hand sides). '
-    '"Exact for manufactured polynomial solutions" is not proved in Lean (integration by parts over piecewise polynomials): decided by the exact-Q model and an independent dense scipy/leggauss oracle = test. '
-    'leggauss, spsolve/splu, banded LU are contracts; residuals measured exactly every run.', NOTE_COMMON + ' Radial breakpoints are assumed uniform (pygyro builds them with linspace).', 'DESIGN.md 4/C14')
-CLAIMS['C15'] = ('other', 'partial proof in Lean 4 (DFT round trip via Mathlib ZMod.dft, mode numbers, chi selection, per-mode operator formula, zero pipeline for the equilibrium, reality in abstract form) + correspondence of the full pipeline on simulated ranks with an independent dense per-mode solve',
-    '13 theorems: dft_roundtrip, dft_formulas, mvals_alias, mval_zero_iff, mval_injective, m2_symmetric, chi_selects_stiffness, mode_operator_formula, pipeline_zero_for_equilibrium, star_dft_of_real, '
-    'star_invDFT_of_herm, potential_real_for_real_density (abstract operators with L(-k)=L(k); not instantiated with the concrete matrices). Not proved: "equilibrium is a fixed point of the complete time step" '
-    '(composition with C10-C12) — measured by the driver oracle of C05/C18. FFTPACK = DFT is a contract checked against a dense DFT every run.', NOTE_COMMON, 'DESIGN.md 4/C15')
+CLAIMS['C14'] = ('proof', 'Lean 4 theorems on a model of the assembly and the per-mode solve (every clause of the statement is a theorem; the Gauss-Legendre rule and the sparse solver enter as stated contracts) + exact-rational correspondence of all assembled matrices and residuals + independent manufactured-solution oracle',
+    'Props/C14.lean (16): slices_consistent, assembled_is_quadrature_weak_form (every stored entry is the quadrature of the stated weak form, boundary rows/columns removed for Dirichlet ends), quadSum_is_gauss_sum, mass_symmetric, '
+    'solve_linear_in_rho, coeffs_buffer_history_free, modes_independent, dirichlet_zero_at_boundary, neumann_refusal_iff / funcIsNull_iff / accepted_has_no_pure_neumann_mode (ValueError exactly for pure Neumann with C = 0), '
+    'function_rhs_agrees_when_rhoFactor_one. Props/C14Extra.lean (24): the exactness clause - manufactured_exact(_algebraic,_discrete,_splines,_kernels): if the reference rule is exact to the constructor degree (RefExact: a stated '
+    'contract on numpy leggauss, not proved - Mathlib has no Gauss-Legendre theory) and phi* in the spline space satisfies the strong form at the quadrature points and the natural condition at a Neumann end, then the '
+    'assembled system holds for phi* and, the mode matrix having trivial kernel, ANY solve returns phi*; quadExact_of_reference_rule for arbitrary breaks (its proof exposed finding F17: one half-width for all cells; repaired by fix '
+    'b54f0ae, the behaviour before the fix is old_single_multFactor_not_exact with a kernel-checked witness). The correspondence runs the model at Q on the code\'s own floats (uniform and graded radial breaks) and compares every '
+    'matrix entry and the exact residual of every solve; the manufactured-solution oracle (dense scipy + leggauss) is independent of the model.',
+    NOTE_COMMON + ' Contracts: leggauss(n) is exact to degree 2n-1 (stated as RefExact), spsolve/splu/banded LU return a solution of the system they are given (residual measured exactly every run).', 'DESIGN.md 4/C14')
+CLAIMS['C15'] = ('proof', 'Lean 4 theorems (DFT round trip via Mathlib ZMod.dft, mode numbers, chi selection, per-mode operator, reality, equilibrium fixed point of the time loop REGENERATED from fullSimulation.py) + correspondence of the full pipeline on simulated ranks with an independent dense per-mode solve',
+    'Props/C15.lean: dft_roundtrip, dft_formulas (getModes / findPotential are mutually inverse DFTs), mvals_alias, mval_zero_iff, mval_injective, m2_symmetric, chi_selects_stiffness, mode_operator_formula, '
+    'pipeline_zero_for_equilibrium, star_dft_of_real, star_invDFT_of_herm, potential_real_for_real_density (operators with L(-k) = L(k)). Props/C15Extra.lean: equilibrium_fixed_point(_passes,_run,_kernels) and '
+    'equilibrium_initial_potential about the loop body regenerated from the driver on every run: (f_eq, phi = 0) is kept by pre, one pass, any number of passes and post; the eight kernel contracts are instantiated from the theorems of '
+    'C10-C13/C15/C16, the five layout/save/restore contracts are those of C01/C03/C04 on global arrays. The three electron models (chi 0 / 1 / kinetic), custom profile functions and non-default profile constants are run through the real '
+    'pipeline on every process grid and compared with the model and with a dense per-mode solve. FFTPACK = DFT is a contract checked against a dense DFT every run.',
+    NOTE_COMMON + ' Contracts: numpy.fft = DFT, spsolve, interpolation reproduces nodal data (C08), the elliptic solve of C14.', 'DESIGN.md 4/C15')
 CLAIMS['C16'] = ('proof', 'Lean 4 theorems on a transcription of get_rho/get_perturbed_rho as DensityFinder calls them + exact-rational correspondence on all process grids',
     'density_is_quadrature (equilibrium row taken at the GLOBAL radial index; a negative example shows the local-index variant differs), density_decomposition_independent, density_linear, density_perturbed_affine, '
     'density_zero_for_equilibrium, density_exact_in_spline_space (from the quadrature duality). Oracle: exact Fraction integral of the exact v-interpolant minus f_eq at the slice\'s own global radius; identical assembled result for every decomposition.',
@@ -133,15 +140,13 @@ ADDENDA = {
     'C04': ' Tie by TRANSLATION as well: harness/translate_pure.py regenerates Generated/GridGen.lean from Grid.setLayout / saveGridValues / freeGridSave / restoreGridValues (statements in source order, over a state that also records which layout self._layout is and what self._f views) on every run and Props/C04Gen.lean proves gen_step_eq / gen_run_eq (generated state machine = model on every reachable state, view invariant kept) and source_history_behaves_like_global_array.',
     'C01': ' Since the repair of F15 over-decomposed configurations (ranks owning empty blocks) are part of the correspondence.',
     'C20': ' Tie by TRANSLATION as well: harness/translate_pure.py regenerates Generated/ProcGridGen.lean (both functions of process_grid.py, every while loop a fuel-recursive function over the record of all locals, / in exact rationals) on every run and Props/C20Gen.lean proves gen_from_max_eq / gen_procGridFromMax_eq / gen_procGrid_eq (generated = model for all inputs with max_proc1, size >= 1 and every sufficient fuel) and gen_procgrid_spec (termination, validity, RuntimeError iff no factorisation, stated on the generated function).',
-    'C07': ' Tie by TRANSLATION for the binary search: harness/translate_pure.py regenerates Generated/FindSpanGen.lean from nu_find_span on every run and Props/C07Gen.lean proves gen_find_span_eq / gen_find_span_correct (the generated span search returns what the model returns; terminates and finds the containing cell on sorted knots).',
-    'C14': ' Props/C14Extra.lean (+Lemmas/PoissonManufactured.lean): manufactured_exact(_algebraic,_discrete,_splines,_kernels): exactness for manufactured solutions as a theorem under RefExact (leggauss(n) exact to the constructor degree; stated, not proved) and trivial kernel of the mode matrix; quadExact_of_reference_rule for arbitrary breaks (its proof exposed F17, repaired by b54f0ae: per-cell half-widths); old_single_multFactor_not_exact describes the behaviour before the fix. The correspondence uses graded radial breaks in a third of the cases.',
+    'C07': ' Tie by TRANSLATION for the binary search: harness/translate_pure.py regenerates Generated/FindSpanGen.lean from nu_find_span on every run and Props/C07Gen.lean proves gen_find_span_eq / gen_find_span_correct (the generated span search returns what the model returns; terminates and finds the containing cell on sorted knots); targets basisfuns / eval1d regenerate nu_basis_funs, nu_basis_funs_1st_der and nu_eval_spline_1d_scalar and Props/C07Gen2.lean proves gen_basis_funs_eq, gen_basis_funs_1st_der_eq, gen_eval_spline_1d_eq/_total (generated kernels = model for every knot vector, degree and point).',
     'C13': ' Props/C13Extra.lean: fd_converges_with_order (the analytic clause, via Taylor with Lagrange remainder), fd_error_explicit, fd_converges_uniformly, pargrad_converges_with_order.',
     'C18': ' Props/C18Extra.lean: constants_order_independent (full clause), constants_success_iff_resolvable, constants_run_is_solution.',
     'C06': ' Props/C06Traces.lean: handler_traces_projection (for EVERY handler, route map and sequence of transposes the predicted per-rank traces are the projections of one explicit event list), directTrace_members_agree, early_exit_consistent, handler_transposes_never_deadlock; Props/C06SwapperTraces.lean: the same for the LayoutSwapper (swapper_traces_projection, crossTrace_members_agree, swapper_transposes_never_deadlock) under CommOK (the constructor chose its communicators; proved for the driver swapper). early_exit_old_inconsistent / swapper_early_exit_inconsistent are the kernel-checked witnesses of the defects F15 / F16b found by this proof attempt and repaired in /repo. Props/C06Extra.lean: route_deterministic (any two iteration orders give the same routes/distances/connectedness for distinct names), route_canonical (graph distance, lexicographically least shortest path), route_nodup_needed.',
     'C05': ' C05.timestep_decomposition_independent (Props/C15Extra.lean, over the loop body REGENERATED from fullSimulation.py): runs on two decompositions whose grid-level operators assemble to the same global operators agree, for a step and for a whole run. Props/C05Extra.lean: wiring_operators_independent derives that hypothesis from the wiring theorems, giving timestep_decomposition_independent_wiring / timestep_wiring_serial with only kernels and layout contracts as parameters.',
     'C08': ' Props/C08Extra.lean: marsden_identity, polynomial_in_spline_space, greville_reproduces_identity, poly_reproduction (full clause; injectivity of the collocation matrix is the one explicit hypothesis).',
     'C09': ' Props/C09Extra.lean: integrals_antiderivative (full clause for sorted knots with simple interior knots), periodic_tail_antiderivative, interior_integral_full, uniform_periodic_equal_weights_low_degree (degrees 1-6 unconditional; >=7 under unisolvence).',
-    'C15': ' Props/C15Extra.lean: equilibrium_fixed_point(_passes,_run,_kernels), equilibrium_initial_potential about the REGENERATED loop body: (f_eq, phi=0) is kept by one pass, any number of passes, pre and post; kernel contracts instantiated from C10-C13/C15/C16, layout/save/restore contracts remain hypotheses.',
 }
 for _k, _v in ADDENDA.items():
     _c = CLAIMS[_k]
